@@ -1,5 +1,6 @@
 """Clauses about the PaymentRequest the lifecycle builds: budget, amount, maximum delay (C03-R4/R5, C04-E/T)."""
 import re
+import names as NM
 from mir import Call, canon, loc, strip, walk, alts, show
 import lib
 import panics
@@ -8,7 +9,6 @@ import model_msgs as mm
 import rules_lc as R
 import rules_hh as HHm
 
-PSTATE = "htlc_manager::PaymentState"
 TINFO = "messages::TrampolineInfo"
 
 
@@ -33,7 +33,7 @@ def _entry_field(e, name):
     if e is None:
         return False, None
     for a in alts(e):
-        if not (a[0] == "field" and a[1] == name and canon(a[2]) == PSTATE):
+        if not (a[0] == "field" and a[1] == name and canon(a[2]) == NM.PS()):
             return False, None
         inner = a[4]
         gets = [x for x in walk(inner) if x[0] == "call" and x[1] in ("std::collections::HashMap::get", "std::collections::HashMap::get_mut")]
@@ -98,7 +98,7 @@ def r4_budget(C, rep, rid):
         okl, getc = _entry_field(alts(e)[0][2][0] if alts(e)[0][0] == "call" and alts(e)[0][2] else e, "amount_received_msat") if ok else (False, None)
         if ok and getc is not None:
             gbb = getc[3][1]
-            regs = [r for r in HHm.guard_regions(C.F, b, ml.GUARD_TY)]
+            regs = [r for r in HHm.guard_regions(C.F, b, ml.guard_ty())]
             inreg = any(gbb in r.blocks for r in regs)
             rep.ob(rid, inreg, L.fn, "held sum is read while the table guard is live", where=getc[3][2], how="inside the guard region", detail="" if inreg else "held sum read outside the table lock")
             sel = R._main_select(C)
@@ -242,7 +242,7 @@ def t_read_at_pay_time(C, rep, rid):
         gets = [x for x in walk(e) if x[0] == "call" and x[1] == "std::collections::HashMap::get"]
         for g in gets[:1]:
             gbb = g[3][1]
-            regs = HHm.guard_regions(C.F, b, ml.GUARD_TY)
+            regs = HHm.guard_regions(C.F, b, ml.guard_ty())
             inreg = any(gbb in r.blocks for r in regs)
             after = gbb not in b.reach([0], removed_nodes=[rd[1]])
             rep.ob(rid, inreg and after, L.fn, "minimum expiry read under the lock after readiness", where=g[3][2], how="guard live, ready arm dominates",
